@@ -300,22 +300,27 @@ impl<P: SingleObjectiveProblem> Selection<P> for StochasticUniversalSampling {
             .note("stochastic universal sampling does not work with infinite objective values")?;
 
         // Calculate the distance between selection points and the random start point
-        let weights_total = weights.iter().sum();
+        let weights_total: f64 = weights.iter().sum();
+        ensure!(
+            weights_total > 0.0,
+            "sampling from population failed: all weights are zero"
+        );
         let gaps = weights_total / self.num_selected as f64;
         let start = rng.gen::<f64>() * gaps;
-        let mut distance = start;
 
         // Select the individuals for which the selection point falls within their fitness range
         let mut selection = Vec::new();
         let mut sum_weights = weights[0];
         let mut i: usize = 0;
-        while distance < weights_total {
-            while sum_weights < distance {
+        for k in 0..self.num_selected {
+            // Computing the k-th selection point directly (instead of accumulating the gaps)
+            // yields exactly `num_selected` points regardless of rounding.
+            let distance = start + k as f64 * gaps;
+            while sum_weights < distance && i + 1 < weights.len() {
                 i += 1;
                 sum_weights += weights[i];
             }
             selection.push(&population[i]);
-            distance += gaps;
         }
         Ok(selection)
     }
